@@ -50,6 +50,11 @@ CRASH_SCEN = {
     7: ([10, 20], O('open')),
     8: ([10, 0], O('dump', 1, 11, 2, 21)),
     9: ([0, 20], O('set', 1, 11)),
+    # further mapping methods (judged by layer P; layer I has no program for them)
+    10: ([0, 20], O('setdefault', 1, 11)),
+    11: ([10, 20], O('setdefault', 1, 11)),
+    12: ([10, 20], O('popkeys', 1, 0, 2, 0)),
+    13: ([10, 20], O('popitem')),
 }
 
 
@@ -310,7 +315,7 @@ def check_C13(tier):
         keysets = ['str'] + (['tuple'] if b in ('dir', 'file', 'dir-fast', 'dir-compressed') and (thorough or b == 'dir') else [])
         for keys in keysets:
             for sid, (init, op) in sorted(CRASH_SCEN.items()):
-                if not thorough and b not in ALL_BACKENDS[:3] and sid not in (2, 3, 7):
+                if not thorough and b not in ALL_BACKENDS[:3] and sid not in (2, 3, 7, 11):
                     continue
                 plans.append((b, keys, sid, init, op))
     t0 = time.time()
